@@ -99,6 +99,10 @@ def make_problem(rs, n, cplx, gk, kind):
         cmax = {"random": 10 ** rs.uniform(0.5, 2), "illcond": 10 ** 1.5}.get(kind, rs.uniform(1.5, 5.0))   # "wellcond": the budgeted convergence clause; "illcond": singular values up to 10^1.5 (cond of A^H A = 1e3)
         sv = np.exp(rs.uniform(0, np.log(cmax), n))
         A = (Q1 * sv) @ Q2.conj().T
+        if kind == "rowscaled":
+            # rows and columns of very different size: the diagonal-preconditioning steps 1/sum|A_ij| then differ by an order
+            # of magnitude between components (array-valued tau and sigma that are far from constant)
+            A = np.exp(rs.uniform(np.log(0.25), np.log(4.0), n))[:, None] * A * np.exp(rs.uniform(np.log(0.5), np.log(2.0), n))[None, :]
     xs = rs.randn(n) + (1j * rs.randn(n) if cplx else 0)
     lam = 0.0
     if gk == "l1":
@@ -180,31 +184,48 @@ def record_gm(sp, rs, k):
             "meta": {"n": n, "g": gk, "complex": cplx, "kind": kind, "accelerate": acc, "alpha_L": round(alpha * L, 2)}}
 
 
-def record_pdhg(sp, rs, k):
+# relative distance to the minimiser that an accelerated run must reach within its 3000 updates (unit 1e-9); measured on the
+# unchanged tree over 400 runs: worst 1.1e-4 (primal acceleration, scalar steps), 1.9e-5 (dual, array steps); 3e-3 leaves a
+# factor 27.  A wrong step rescaling makes the steps degenerate and the iterates stall (seed C13-3 stalls at 3e-2).
+ACCEL_FINAL_TOL = 3000000
+# dual acceleration: worst 6.5e-5 over 170 runs (row-scaled problems included); with the smallest step replaced by the largest
+# in the rescaling rule the median run stalls at 1.3e-3
+ACCEL_DUAL_FINAL_TOL = 1000000
+
+
+def record_pdhg(sp, rs, k, force_mode=None):
     n = int(rs.choice([4, 8, 16]))
-    gk = str(rs.choice(["none", "l1", "l2", "l2", "box"]))
+    gk = str(rs.choice(["none", "l1", "l2", "l2", "box"])) if force_mode != "accel_p_arr" else "l2"
     cplx = bool(rs.rand() < 0.4) and gk != "box"
     A, xs, y, lam = make_problem(rs, n, cplx, gk, "wellcond")
+    # step-size modes: constant scalar / constant per-component (diagonal preconditioning of Pock & Chambolle 2011:
+    # tau_j = 1/sum_i |A_ij|, sigma_i = 1/sum_j |A_ij|, both non-constant arrays) / strong-convexity acceleration through the
+    # primal (g = lam/2 |x|^2, gamma_primal = lam) or the dual (f^* is 1-strongly convex, gamma_dual = 1), each with scalar
+    # and with array-valued steps
+    modes = ["scalar", "array", "accel_d", "accel_d_arr"] + (["accel_p", "accel_p_arr", "accel_p"] if gk == "l2" else [])
+    mode = force_mode or (modes[k % len(modes)] if k < 2 * len(modes) else str(rs.choice(modes)))
+    if mode.endswith("array") or mode.endswith("_arr"):
+        A, xs, y, lam = make_problem(rs, n, cplx, gk, "rowscaled")
     us = A @ xs - y
     nA = np.linalg.norm(A, 2)
-    mode = str(rs.choice(["scalar", "array", "accel", "accel"])) if gk == "l2" else str(rs.choice(["scalar", "array"]))
-    if mode == "array":
-        sig = rs.uniform(0.5, 2.0, n)
-        # diagonal preconditioning (Pock-Chambolle): tau_j = 1/sum_i |A_ij| sigma-weighted bound; use the safe scalar bound per entry
-        tau = np.full(n, 0.95 / (sig.max() * nA ** 2))
-        sigma = sig
+    if mode.endswith("array") or mode.endswith("_arr"):
+        absA = np.abs(A)
+        tau = 0.95 / absA.sum(axis=0)
+        sigma = 1.0 / absA.sum(axis=1)
     else:
         sigma = float(rs.choice([0.1, 1.0, 5.0]))
         tau = 0.95 / (sigma * nA ** 2)
-    K = 3000 if mode != "accel" else 600
-    gp = lam if (mode == "accel") else 0
+    accel = mode.startswith("accel")
+    K = 3000
+    gp = lam if mode.startswith("accel_p") else 0
+    gd = 1.0 if mode.startswith("accel_d") else 0
     x = np.zeros(n, dtype=A.dtype)
     u = np.zeros(n, dtype=A.dtype)
     tau_a = tau.copy() if isinstance(tau, np.ndarray) else tau
     sig_a = sigma.copy() if isinstance(sigma, np.ndarray) else sigma
     pg = make_prox(sp, gk, lam, n) or sp.prox.NoOp([n])
     alg = sp.alg.PrimalDualHybridGradient(sp.prox.L2Reg([n], 1, y=-y), pg, lambda v: A @ v, lambda v: A.conj().T @ v, x, u, tau_a, sig_a,
-                                          gamma_primal=gp, max_iter=K, tol=0)
+                                          gamma_primal=gp, gamma_dual=gd, max_iter=K, tol=0)
     ts0 = np.mean(np.asarray(tau, dtype=float)) * np.mean(np.asarray(sigma, dtype=float))
 
     def M(dx, du):
@@ -218,12 +239,14 @@ def record_pdhg(sp, rs, k):
         kk = alg.iter
         if kk <= 400:
             md = 0
-            if mode != "accel":
+            if not accel:
                 m = M(xprev - xs, alg.u - us)
                 if m1 is None:
                     m1 = max(m, 1e-300)
                 md = fx(m / m1)
-            pr = fx(abs(np.mean(np.asarray(alg.tau, dtype=float)) * np.mean(np.asarray(alg.sigma, dtype=float)) / ts0 - 1))
+            # tau_i * sigma_j is invariant under the acceleration for every pair (both are rescaled uniformly)
+            pr = fx(abs(np.mean(np.asarray(alg.tau, dtype=float)) * np.mean(np.asarray(alg.sigma, dtype=float)) / ts0 - 1)
+                    + float(np.max(np.abs(np.asarray(alg.tau, dtype=float) / np.asarray(tau, dtype=float) * np.mean(np.asarray(alg.sigma, dtype=float)) / np.mean(np.asarray(sigma, dtype=float)) - 1))))
             ev.append({"e": "pd", "iter": int(kk), "ratio": 0, "up": 0, "mdist": md, "prod": pr, "saddle_defect": 0, "final_dist": 0, "in_place": 1})
         xprev = alg.x.copy()
     # saddle point is a fixed point
@@ -236,7 +259,7 @@ def record_pdhg(sp, rs, k):
     ev.append({"e": "end", "iter": int(alg.iter), "ratio": 0, "up": 0, "mdist": 0, "prod": 0, "saddle_defect": fx(defect), "final_dist": fx(fd),
                "in_place": int(alg.x is x and alg.u is u)})
     # only the first 400 updates are logged: iter of the end event is not checked against the log
-    return {"id": "pd%d" % k, "accelerate": int(mode == "accel"), "constant_steps": int(mode != "accel"), "max_iter": K, "final_tol": 100000 if mode != "accel" else 10000000, "ev": ev,
+    return {"id": "pd%d" % k, "accelerate": int(accel), "constant_steps": int(not accel), "max_iter": K, "final_tol": 100000 if not accel else (ACCEL_FINAL_TOL if mode.startswith("accel_p") else ACCEL_DUAL_FINAL_TOL), "ev": ev, "final_dist_float": float(fd),
             "meta": {"n": n, "g": gk, "complex": cplx, "steps": mode, "sigma": sigma if not isinstance(sigma, np.ndarray) else "array"}}
 
 
@@ -281,6 +304,10 @@ def run(ctx):
     rs = ctx.nprng("descent_traces")
     ng, npd = (150, 90) if ctx.thorough else (50, 30)
     traces = [record_gm(sp, rs, k) for k in range(ng)] + [record_pdhg(sp, rs, k) for k in range(npd)]
+    # accelerated runs with strongly non-constant array-valued steps (the rescaling rule must use the SMALLEST step)
+    nacc = 36 if ctx.thorough else 12
+    traces += [record_pdhg(sp, rs, npd + k, force_mode="accel_d_arr" if k % 3 else "accel_p_arr") for k in range(nacc)]
+    npd += nacc
     slim = [{k2: v for k2, v in t.items() if k2 != "meta"} for t in traces]
     tres, rej = tracecheck.validate("DescentTrace", slim, wd, constants=["Slack = 1000"], timeout=900, invariants=())
     r.add_tlc(tres, "DescentTrace")
